@@ -49,6 +49,7 @@ type State struct {
 	lastIter *iterInfo
 	curPoint point
 	lockEpoch *int
+	wfSink   *[]string // when set, type-invariant facts are collected (inside quantifier bodies) instead of asserted
 }
 
 type prefixEpoch struct {
@@ -363,7 +364,7 @@ const maxAlloc = "281474976710656" // 2^48: Go's maxAlloc on 64-bit platforms (a
 
 // assumeWF asserts the type invariants of a value read from the environment or the heap.
 func (st *State) assumeWF(v *Val, initial bool) {
-	sol := st.fx.sol
+	sol := wfAsserter{st}
 	switch v.K {
 	case KInt:
 		if v.T == nil {
@@ -438,4 +439,17 @@ func (l *Loc) className() string {
 		return typeKey(l.RootT) + "." + fieldNames(l.RootT, l.Path)
 	}
 	return l.Root + "|" + l.Path
+}
+
+type wfAsserter struct{ st *State }
+
+func (w wfAsserter) Assert(t string) {
+	if t == "true" {
+		return
+	}
+	if w.st.wfSink != nil {
+		*w.st.wfSink = append(*w.st.wfSink, t)
+		return
+	}
+	w.st.fx.sol.Assert(t)
 }
